@@ -333,7 +333,7 @@ impl Subject for ResSub {
         ResSub { r, h, k: self.k, next: self.next }
     }
     fn apply(&mut self, op: &GenOp) -> (Obs, bool, bool) {
-        let n = if op.kind % 3 == 0 { 1 + (op.b as usize % (60 * self.k + 1)) } else { 1 };
+        let n = if op.kind % 3 == 0 { 1 + (op.b as usize % (60 * self.k.min(50) + 1)) } else { 1 };
         for _ in 0..n {
             self.r.add(self.next);
             self.next += 1;
@@ -591,9 +591,9 @@ fn cfg_strategy() -> impl Strategy<Value = Cfg> {
         2 => (1usize..=16, 1usize..=4, hkind_any()).prop_map(|(w, d, hk)| Cfg::Cms { w, d, hk }),
         2 => (4usize..=10, hkind_any()).prop_map(|(b, hk)| Cfg::Hll { b, hk }),
         8 => (scale(), crate::props::c15::delta_strategy(), crate::props::c15::backlog_strategy()).prop_map(|(scale, delta, backlog)| Cfg::TDigest { scale, delta, backlog }),
-        2 => (1usize..=12, rng_spec()).prop_map(|(k, rng)| Cfg::Reservoir { k, rng }),
-        2 => (1usize..=6, 1usize..=16, 1usize..=3, 1u16..40).prop_map(|(k, w, d, alphabet)| Cfg::CmsHeap { k, w, d, alphabet }),
-        2 => (1usize..=20, 1u16..60).prop_map(|(width, alphabet)| Cfg::Lossy { width, alphabet }),
+        2 => (prop_oneof![12 => 1usize..=12, 1 => prop_oneof![Just(usize::MAX), Just(1usize << 62), Just(1000usize)]], rng_spec()).prop_map(|(k, rng)| Cfg::Reservoir { k, rng }),
+        2 => (prop_oneof![12 => 1usize..=6, 1 => prop_oneof![Just(usize::MAX), Just(1usize << 62), Just(1000usize)]], 1usize..=16, 1usize..=3, 1u16..40).prop_map(|(k, w, d, alphabet)| Cfg::CmsHeap { k, w, d, alphabet }),
+        2 => (prop_oneof![12 => 1usize..=20, 1 => prop_oneof![Just(usize::MAX), Just(1usize << 62), Just(1000usize)]], 1u16..60).prop_map(|(width, alphabet)| Cfg::Lossy { width, alphabet }),
     ]
 }
 
